@@ -29,7 +29,7 @@ META = {
     "id": "C05",
     "level": "proof",
     "technique": "Coq invariant proof (perfect matching of the idle block preserved by certified picks, completions and re-sorting, over arbitrary operation sequences) + termination proof of the literal sort_trajstate loop for staircase rows of any size (lexicographic measure, pigeonhole on the matching) + certified trace validation and exhaustive lock-step of the sorting loop against the real code + exhaustive enumeration of all random outcomes of the real pick()/pick_traj_ens()/prep_md_items start-up and of all one-step completions (treat_output -> sort_trajstate -> restart file) on small systems",
-    "text": "Unbounded theorems: in every state reachable by picks that have non-zero probability (certified by a perfect matching through the picked pair), re-issued jobs and completions in any order with any outcome, the idle block of the weight matrix admits a perfect matching; for any idle slot a certified pick exists and is accepted (a job can always be drawn); after every completed step every slot holds a path with non-zero weight there (what load_paths asserts on the restart file written at that moment); live paths are distinct and below the next path number, which never decreases; when the sorting loop returns no slot needs moving. C05_sort_terminates (unbounded): on every state satisfying the exclusivity invariant, with a matchable idle block and staircase weight rows of full length, the literal sort_trajstate loop ends without error within n(n+1)+n+1 swaps, leaves no slot that needs moving and preserves all of this (the first badly placed slot never moves left; while it stays, the row in it gets strictly longer). A bounded exhaustive version (<= 4 plus ensembles) is kept as well. Tie: certified trace validation of the real scheduler()/REPEX_state (as C03) and exhaustive lock-step of sort_trajstate on all staircase states up to 5 (quick) / 6 (thorough) plus ensembles. Exhaustive small-system families on the REAL REPEX_state (py/c05_enum.py, scripted generator enumerating every outcome with non-zero probability of choice()/random(), DFS): (1) start-up of 2..ensembles-1 workers exactly as scheduler() does it (initiate/prep_md_items/pick_lock/pick/pick_traj_ens) from every loadable staircase set of initial paths (3..5 ensembles complete, 0/1 weights and two or three integer-weight kinds; 6 ensembles, 0/1 weights: a seeded sample of the reach vectors in the quick tier, complete in the thorough tier) — after every pick the held ensembles/paths are disjoint and consistent with the busy flags, the remaining idle block has a perfect matching (brute force), P evaluates, is finite and has unit row/column sums; an exception in a pick is a stall; (2) from every such state with one worker (3..6 ensembles) or two workers (3..5) one job, then the other, finishes through loop()/treat_output() with every outcome (rejected, accepted with every reach legal for the ensemble): sorting terminates, every idle live path has non-zero weight where it sits, live paths distinct, numbers fresh, P fine, idle block matchable, the restart.toml written by that treat_output has the live order and the in-flight jobs and loads through REPEX_state + load_paths; the state at entry of every such sort_trajstate is also given to the extracted model (lock-step). The decision sequence is reported as the failing input.",
+    "text": "Unbounded theorems: in every state reachable by picks that have non-zero probability (certified by a perfect matching through the picked pair), re-issued jobs and completions in any order with any outcome, the idle block of the weight matrix admits a perfect matching; for any idle slot a certified pick exists and is accepted (a job can always be drawn); after every completed step every slot holds a path with non-zero weight there (what load_paths asserts on the restart file written at that moment); live paths are distinct and below the next path number, which never decreases; when the sorting loop returns no slot needs moving. C05_sort_terminates (unbounded): on every state satisfying the exclusivity invariant, with a matchable idle block and staircase weight rows of full length, the literal sort_trajstate loop ends without error within n(n+1)+n+1 swaps, leaves no slot that needs moving and preserves all of this (the first badly placed slot never moves left; while it stays, the row in it gets strictly longer). A bounded exhaustive version (<= 4 plus ensembles) is kept as well. Tie: certified trace validation of the real scheduler()/REPEX_state (as C03) and exhaustive lock-step of sort_trajstate on all staircase states up to 5 (quick) / 6 (thorough) plus ensembles. Exhaustive small-system families on the REAL REPEX_state (py/c05_enum.py, scripted generator enumerating every outcome with non-zero probability of choice()/random(), DFS): (1) start-up of 2..ensembles-1 workers exactly as scheduler() does it (initiate/prep_md_items/pick_lock/pick/pick_traj_ens) from every loadable staircase set of initial paths (3..5 ensembles complete, 0/1 weights and two or three integer-weight kinds; 6 ensembles, 0/1 weights: a seeded sample of the reach vectors in the quick tier, complete in the thorough tier) — after every pick the held ensembles/paths are disjoint and consistent with the busy flags, the remaining idle block has a perfect matching (brute force), P evaluates, is finite and has unit row/column sums; an exception in a pick is a stall; (2) from every such state with one worker (3..6 ensembles) or two workers (3..5) one job, then the other, finishes through loop()/treat_output() with every outcome (rejected, accepted with every reach legal for the ensemble): sorting terminates, every idle live path has non-zero weight where it sits, live paths distinct, numbers fresh, P fine, idle block matchable, the restart.toml written by that treat_output has the live order and the in-flight jobs and loads through REPEX_state + load_paths; the state at entry of every such sort_trajstate is also given to the extracted model (lock-step). The decision sequence is reported as the failing input. Accepted-configuration family: for 2..4 (thorough 5) ensembles, with and without lambda_minus_one, sh / wf, workers 1..ensembles+1 and several seeds, every configuration the real setup_config accepts is run on the lattice engine for 2*ensembles+2 steps; an exception in the scheduler is a stall and the configuration is the failing input.",
     "note": "Trusted: Coq kernel; extraction + OCaml driver; harness. Termination of the sorting loop is proved for staircase rows of any size; the staircase hypothesis (and full row length) is evaluated on every recorded real state before re-sorting (counted in the evidence: staircase_states / non_staircase_states); weight rows are staircase (shooting: by construction; wire fencing: when the order parameter does not jump over a whole region — true for the lattice engine). That P_ij > 0 iff (i, j) lies on a perfect matching is perm_pos_iff_matching (C02's domain); here the certificate is computed by the harness and checked by the model. The exhaustive families use stand-in path objects (only the attributes REPEX_state reads) with prescribed staircase weights (powers of two, so the permanent code is exact), a stand-in PathStorage, and explore by saving/restoring the fields of the REPEX_state object; every reported failure and a sample of the visited states are re-run from scratch with the full script and must reproduce.",
     "design_ref": "4/C05",
 }
